@@ -115,6 +115,10 @@ class Report:
             out.write("KNOWN-FINDING: property=%s %s\n" % (self.pid, kf.get("what", i["what"])))
         replay_dir = os.path.join(VERIF, "evidence", "replay")
         replays = []
+        if os.path.isdir(replay_dir):
+            for fn in os.listdir(replay_dir):
+                if fn.startswith(self.pid + "-"):
+                    os.unlink(os.path.join(replay_dir, fn))
         if viol:
             os.makedirs(replay_dir, exist_ok=True)
             for k, i in enumerate(viol):
